@@ -33,15 +33,28 @@ PY
   what=$(python3 -c "import json;print((json.load(open('$d/meta.json')).get('summary') or '')[:150].replace('|','/').replace('\n',' '))")
   echo "| $id | $prop | $verdict | $src | $((t1-t0)) s | $what |" | tee -a $tmp
 done
-{
-  echo "# Seeded changes vs. the checks"
-  echo
-  echo "Written by seedall.sh on $(date -u +%Y-%m-%dT%H:%MZ), /repo at $(git -C /repo rev-parse --short HEAD), /verif at $(git rev-parse --short HEAD) (+ working tree)."
-  echo "Each row: the change applied to /repo (git apply), its property's check run at the quick tier (seed 1), /repo restored."
-  echo
-  echo "| seed | property | verdict | first reporting family / source | time | change |"
-  echo "|---|---|---|---|---|---|"
-  cat $tmp
-} > $out
+python3 - "$tmp" "$out" "$(git -C /repo rev-parse --short HEAD)" "$(git rev-parse --short HEAD)" <<'PY'
+import sys, re, datetime
+tmp, out, repo_head, verif_head = sys.argv[1:5]
+new_rows = [l.rstrip("\n") for l in open(tmp) if l.startswith("| C")]
+rows = {}
+try:
+    for l in open(out):
+        m = re.match(r"\| (C\d+[a-z]) \|", l)
+        if m:
+            rows[m.group(1)] = l.rstrip("\n")
+except FileNotFoundError:
+    pass
+for l in new_rows:
+    rows[re.match(r"\| (C\d+[a-z]) \|", l).group(1)] = l
+with open(out, "w") as f:
+    f.write("# Seeded changes vs. the checks\n\n")
+    f.write("Written by seedall.sh; last update %s (rows re-run in that update: %d of %d), /repo at %s, /verif at %s (+ working tree).\n" % (
+        datetime.datetime.utcnow().strftime("%Y-%m-%dT%H:%MZ"), len(new_rows), len(rows), repo_head, verif_head))
+    f.write("Each row: the change applied to /repo (git apply), its property's check run at the quick tier (seed 1), /repo restored.\n\n")
+    f.write("| seed | property | verdict | first reporting family / source | time | change |\n|---|---|---|---|---|---|\n")
+    for k in sorted(rows):
+        f.write(rows[k] + "\n")
+PY
 rm -f $tmp
 grep -c "caught" $out; grep -E "MISSED|DOES NOT" $out
